@@ -16,8 +16,13 @@ import (
 	"sync"
 	"sync/atomic"
 	"time"
+	"unicode/utf8"
 
+	"bytes"
+	"encoding/base64"
+	"encoding/gob"
 	"github.com/tdakkota/docker-logql/internal/zzverif/vsched"
+	"reflect"
 )
 
 // Violation is one counterexample, replayable from Input (+ Choices).
@@ -37,6 +42,38 @@ type Violation struct {
 	Seed    int    `json:"seed"`
 	// MapRot: the fixed hash-map iteration order the worker ran under (0 = canonical; see vsched.DefaultRot).
 	MapRot int `json:"map_rot,omitempty"`
+	// InputGob: the input again, gob-encoded (base64), present only when the JSON form above does not decode
+	// back to the same value (strings that are not valid UTF-8): a replay then uses exactly the bytes explored.
+	InputGob string `json:"input_gob,omitempty"`
+}
+
+// losslessGob returns the gob form of input when its JSON form raw is lossy, "" otherwise.
+func losslessGob(input any, raw []byte) string {
+	t := reflect.TypeOf(input)
+	if t == nil {
+		return ""
+	}
+	back := reflect.New(t)
+	if err := json.Unmarshal(raw, back.Interface()); err == nil && reflect.DeepEqual(back.Elem().Interface(), input) {
+		return ""
+	}
+	var buf bytes.Buffer
+	if err := gob.NewEncoder(&buf).EncodeValue(reflect.ValueOf(input)); err != nil {
+		return ""
+	}
+	return base64.StdEncoding.EncodeToString(buf.Bytes())
+}
+
+// DecodeInput fills ptr with the input of a recorded violation, byte-exactly.
+func DecodeInput(v Violation, ptr any) error {
+	if v.InputGob != "" {
+		b, err := base64.StdEncoding.DecodeString(v.InputGob)
+		if err != nil {
+			return err
+		}
+		return gob.NewDecoder(bytes.NewReader(b)).Decode(ptr)
+	}
+	return json.Unmarshal(v.Input, ptr)
 }
 
 // KnownHit counts inputs attributed to a listed known finding.
@@ -153,7 +190,7 @@ func (r *Run) watchdog(replay bool) {
 			continue // not inside a named case: the harness itself is busy (enumeration, sorting)
 		}
 		raw, _ := json.Marshal(input)
-		v := Violation{Tier: r.Tier, Shard: r.Shard, NShards: r.NShards, Seed: r.Seed, MapRot: vsched.DefaultRot, Property: r.Property, Check: check + "/termination", Input: raw, Choices: choices,
+		v := Violation{Tier: r.Tier, Shard: r.Shard, NShards: r.NShards, Seed: r.Seed, MapRot: vsched.DefaultRot, Property: r.Property, Check: check + "/termination", Input: raw, InputGob: losslessGob(input, raw), Choices: choices,
 			Observed: fmt.Sprintf("no return within %d s", StallSeconds), Expected: "the evaluation returns a result or an error",
 			Explanation: "the implementation did not return from this case (infinite loop or deadlock)"}
 		if replay {
@@ -241,6 +278,7 @@ func (r *Run) Fail(check string, input any, choices []int, observed, expected an
 		Property: r.Property, Check: check, Input: raw, Choices: choices,
 		Observed: observed, Expected: expected, Explanation: explanation,
 		Tier: r.Tier, Shard: r.Shard, NShards: r.NShards, Seed: r.Seed, MapRot: vsched.DefaultRot,
+		InputGob: losslessGob(input, raw),
 	})
 }
 
@@ -441,7 +479,10 @@ func (r *Run) Journal(check string, input any) {
 	if err != nil {
 		return
 	}
-	v := Violation{Property: r.Property, Check: check, Input: raw, Explanation: "worker died while executing this case"}
+	v := Violation{Property: r.Property, Check: check, Input: raw, Explanation: "worker died while executing this case", MapRot: vsched.DefaultRot}
+	if !utf8.Valid(raw) || bytes.Contains(raw, []byte("\\ufffd")) {
+		v.InputGob = losslessGob(input, raw) // (cheap test first: the journal is written before every case)
+	}
 	data, _ := json.Marshal(v)
 	_ = os.WriteFile(r.journal, data, 0o644)
 }
